@@ -192,7 +192,7 @@ fn c05_stats_n2_wide() {
     time_stats::<2>(d, size as u32, false);
 }
 
-// @cell props=C05 tier=thorough kind=attempt timeout=3000 mem=16 cls=N
+// @cell props=C05 tier=thorough kind=attempt timeout=900 mem=16 cls=N
 // @desc 2 samples with u16 durations and any sample size in u32 (>= 1)
 #[kani::proof]
 #[kani::unwind(6)]
@@ -344,7 +344,7 @@ fn alloc_stats<const N: usize>() {
     std::mem::forget(ctx);
 }
 
-// @cell props=C05 tier=thorough kind=attempt timeout=3000 mem=24 cls=N
+// @cell props=C05 tier=thorough kind=attempt timeout=900 mem=24 cls=N
 // @desc allocation figures, 2 samples with symbolic per-sample max-count / alloc tallies in the real HashMap
 #[kani::proof]
 #[kani::unwind(6)]
